@@ -837,6 +837,12 @@ func (c *FnCtx) generate() (vc *FnVC, err error) {
 		c.D.constant(okName(b), SBool)
 	}
 	c.addSpecAxioms()
+	if c.D.seen["strlen"] {
+		// lengths of the string literals of the program
+		for id, lit := range c.U.strs {
+			c.defs = append(c.defs, fmt.Sprintf("(= (strlen %d) %d)", id, len(lit)))
+		}
+	}
 	if c.usesPtrTag {
 		for id, t := range c.U.typeByID {
 			if t == nil {
